@@ -926,3 +926,195 @@ structure Ops (σ : Type) where
 func c10tParse(abs string) (*ast.File, error) {
 	return parser.ParseFile(fset, abs, nil, parser.ParseComments)
 }
+
+// ---------------------------------------------------------------------------------------------------------------
+// Gen module ResourceSites: every use of a circuit-breaker resource (ResourceManager().<Res>().<Op>()) in the non-test,
+// non-mock Go files under pkg/ — which file and function touches which resource with which operation.
+// ---------------------------------------------------------------------------------------------------------------
+
+func init() { register("ResourceSites", genC10tResourceSites) }
+
+type c10tSite struct{ file, fn, res, op string }
+
+var c10tResNames = map[string]bool{"Connections": true, "PendingRequests": true, "Requests": true, "Retries": true}
+var c10tOpNames = map[string]bool{"CanCreate": true, "Increase": true, "Decrease": true, "Max": true, "Cur": true, "UpdateCur": true}
+
+// c10tResOf: e is `<…>.ResourceManager().<Res>()` => Res
+func c10tResOf(e ast.Expr) (string, bool) {
+	ce, ok := e.(*ast.CallExpr)
+	if !ok || len(ce.Args) != 0 {
+		return "", false
+	}
+	se, ok := ce.Fun.(*ast.SelectorExpr)
+	if !ok || !c10tResNames[se.Sel.Name] {
+		return "", false
+	}
+	in, ok := se.X.(*ast.CallExpr)
+	if !ok {
+		return "", false
+	}
+	ise, ok := in.Fun.(*ast.SelectorExpr)
+	if !ok || ise.Sel.Name != "ResourceManager" {
+		return "", false
+	}
+	return se.Sel.Name, true
+}
+
+func c10tScanFunc(rel string, fd *ast.FuncDecl, sites *[]c10tSite, escapes *[]string) {
+	name := fd.Name.Name
+	if fd.Recv != nil && len(fd.Recv.List) == 1 {
+		rt := fd.Recv.List[0].Type
+		if st, ok := rt.(*ast.StarExpr); ok {
+			rt = st.X
+		}
+		name = src(rt) + "." + name
+	}
+	alias := map[string]string{} // local identifier -> resource
+	used := map[ast.Expr]bool{}  // resource expressions accounted for
+	// pass 1: aliases  `v := <…>.ResourceManager().<Res>()`
+	ast.Inspect(fd.Body, func(n ast.Node) bool {
+		as, ok := n.(*ast.AssignStmt)
+		if !ok || len(as.Lhs) != 1 || len(as.Rhs) != 1 {
+			return true
+		}
+		if res, ok := c10tResOf(as.Rhs[0]); ok {
+			if id, ok := as.Lhs[0].(*ast.Ident); ok {
+				alias[id.Name] = res
+				used[as.Rhs[0]] = true
+			}
+		}
+		return true
+	})
+	// pass 2: operations on a resource expression or an alias
+	ast.Inspect(fd.Body, func(n ast.Node) bool {
+		ce, ok := n.(*ast.CallExpr)
+		if !ok {
+			return true
+		}
+		se, ok := ce.Fun.(*ast.SelectorExpr)
+		if !ok || !c10tOpNames[se.Sel.Name] {
+			return true
+		}
+		if res, ok := c10tResOf(se.X); ok {
+			*sites = append(*sites, c10tSite{rel, name, res, se.Sel.Name})
+			used[se.X] = true
+		} else if id, ok := se.X.(*ast.Ident); ok && alias[id.Name] != "" {
+			*sites = append(*sites, c10tSite{rel, name, alias[id.Name], se.Sel.Name})
+		}
+		return true
+	})
+	// pass 3: anything else done with a resource or a resource manager escapes the table
+	ast.Inspect(fd.Body, func(n ast.Node) bool {
+		e, ok := n.(ast.Expr)
+		if !ok {
+			return true
+		}
+		if _, isRes := c10tResOf(e); isRes && !used[e] {
+			*escapes = append(*escapes, rel+":"+name+": "+src(e))
+		}
+		return true
+	})
+	// a resource manager stored or passed on (not immediately asked for one of its resources)
+	var parents []ast.Node
+	ast.Inspect(fd.Body, func(n ast.Node) bool {
+		if n == nil {
+			parents = parents[:len(parents)-1]
+			return true
+		}
+		if ce, ok := n.(*ast.CallExpr); ok {
+			if se, ok := ce.Fun.(*ast.SelectorExpr); ok && se.Sel.Name == "ResourceManager" && len(ce.Args) == 0 {
+				direct := false
+				if len(parents) > 0 {
+					if pse, ok := parents[len(parents)-1].(*ast.SelectorExpr); ok && pse.X == n && c10tResNames[pse.Sel.Name] {
+						direct = true
+					}
+				}
+				if !direct {
+					*escapes = append(*escapes, rel+":"+name+": "+src(ce))
+				}
+			}
+		}
+		parents = append(parents, n)
+		return true
+	})
+}
+
+func genC10tResourceSites() (string, error) {
+	var sites []c10tSite
+	var escapes []string
+	root := filepath.Join(repo, "pkg")
+	err := filepath.Walk(root, func(p string, fi os.FileInfo, err error) error {
+		if err != nil {
+			return err
+		}
+		if fi.IsDir() {
+			if fi.Name() == "mock" || fi.Name() == "testdata" {
+				return filepath.SkipDir
+			}
+			return nil
+		}
+		if !strings.HasSuffix(p, ".go") || strings.HasSuffix(p, "_test.go") {
+			return nil
+		}
+		b, err := os.ReadFile(p)
+		if err != nil {
+			return err
+		}
+		if !strings.Contains(string(b), "ResourceManager()") {
+			return nil
+		}
+		f, err := c10tParse(p)
+		if err != nil {
+			return err
+		}
+		rel, _ := filepath.Rel(repo, p)
+		for _, d := range f.Decls {
+			if fd, ok := d.(*ast.FuncDecl); ok && fd.Body != nil {
+				c10tScanFunc(rel, fd, &sites, &escapes)
+			}
+		}
+		// a use outside any function body (package-level initialiser) is not expected
+		return nil
+	})
+	if err != nil {
+		return "", err
+	}
+	sort.Slice(sites, func(i, j int) bool {
+		a, b := sites[i], sites[j]
+		if a.file != b.file {
+			return a.file < b.file
+		}
+		if a.fn != b.fn {
+			return a.fn < b.fn
+		}
+		if a.res != b.res {
+			return a.res < b.res
+		}
+		return a.op < b.op
+	})
+	sort.Strings(escapes)
+	s := header("ResourceSites", "every non-test, non-mock Go file under pkg/ (uses of ResourceManager().<Res>().<Op>())")
+	s += "inductive Res where\n  | Connections | PendingRequests | Requests | Retries\n  deriving DecidableEq, Repr\n"
+	s += "inductive Op where\n  | CanCreate | Increase | Decrease | Max | Cur | UpdateCur\n  deriving DecidableEq, Repr\n"
+	s += "structure Site where\n  file : String\n  fn : String\n  res : Res\n  op : Op\n  deriving DecidableEq, Repr\n"
+	s += "/-- one entry per (file, function, resource, operation) call site, sorted; duplicates kept -/\ndef sites : List Site := [\n"
+	for i, x := range sites {
+		sep := ","
+		if i == len(sites)-1 {
+			sep = ""
+		}
+		s += fmt.Sprintf("  ⟨%q, %q, .%s, .%s⟩%s\n", x.file, x.fn, x.res, x.op, sep)
+	}
+	s += "]\n"
+	s += "/-- resources or resource managers used in any other way (stored, passed on): outside the table -/\ndef escapes : List String := [\n"
+	for i, x := range escapes {
+		sep := ","
+		if i == len(escapes)-1 {
+			sep = ""
+		}
+		s += fmt.Sprintf("  %q%s\n", x, sep)
+	}
+	s += "]\n"
+	s += footer("ResourceSites")
+	return s, nil
+}
